@@ -20,9 +20,11 @@ Definition IP_ECLOSED : N := 7%N.
 (* nni_msg_pull_up as written: duplicate when the body has no room for the
    header or the message is shared; otherwise insert the header in front of the
    body -- the return value of nni_msg_insert is ignored ("cannot fail") and the
-   header is cleared.  fail1: the nni_msg allocation fails; fail2: the chunk
+   header is cleared.  [chk] = false is that text; [chk] = true is the repaired
+   form, which returns NULL (message dropped whole by the caller) when the
+   insert fails.  fail1: the nni_msg allocation fails; fail2: the chunk
    allocation fails. *)
-Definition ip_pull_up (m : msg) (shared fail1 fail2 : bool) : option (option msg) :=
+Definition ip_pull_up (chk : bool) (m : msg) (shared fail1 fail2 : bool) : option (option msg) :=
   if (chunk_room (m_body m) <? length (m_hdr m)) || shared then
     match msg_body m with
     | None => None
@@ -44,7 +46,7 @@ Definition ip_pull_up (m : msg) (shared fail1 fail2 : bool) : option (option msg
   else
     match chunk_insert true (m_body m) (m_hdr m) fail2 with
     | None => None
-    | Some (_, c) => Some (Some (mkMsg [] c))
+    | Some (rv, c) => if chk && negb (rv =? 0)%N then Some None else Some (Some (mkMsg [] c))
     end.
 
 Record wentry := mkWent {
@@ -71,23 +73,23 @@ Definition run_closed (q : ip_queue) : ip_queue * list ip_out :=
    map (fun a => OFail a IP_ECLOSED) (q_readers q) ++ map (fun w => OFail (w_aio w) IP_ECLOSED) (q_writers q)).
 
 (* the for(;;) loop of inproc_queue_run; every iteration removes a writer *)
-Fixpoint run_loop (fuel : nat) (q : ip_queue) : option (ip_queue * list ip_out) :=
+Fixpoint run_loop (chk : bool) (fuel : nat) (q : ip_queue) : option (ip_queue * list ip_out) :=
   match fuel with
   | O => Some (q, [])
   | S f =>
       match q_readers q, q_writers q with
       | rd :: rds, w :: ws =>
           let done := OWrDone (w_aio w) (w_seq w) (msg_len (w_msg w) + length (m_hdr (w_msg w))) in
-          match ip_pull_up (w_msg w) (w_shared w) (w_fail1 w) (w_fail2 w) with
+          match ip_pull_up chk (w_msg w) (w_shared w) (w_fail1 w) (w_fail2 w) with
           | None => None
           | Some None =>
               (* nni_msg_free(msg); continue;  -- the reader stays *)
-              match run_loop f (mkQ (rd :: rds) ws (q_closed q) (q_next q)) with
+              match run_loop chk f (mkQ (rd :: rds) ws (q_closed q) (q_next q)) with
               | None => None
               | Some (q', o) => Some (q', done :: ODropped (w_seq w) :: o)
               end
           | Some (Some pu) =>
-              match run_loop f (mkQ rds ws (q_closed q) (q_next q)) with
+              match run_loop chk f (mkQ rds ws (q_closed q) (q_next q)) with
               | None => None
               | Some (q', o) => Some (q', done :: OHandoff (w_seq w) rd pu :: o)
               end
@@ -96,9 +98,9 @@ Fixpoint run_loop (fuel : nat) (q : ip_queue) : option (ip_queue * list ip_out) 
       end
   end.
 
-Definition queue_run (q : ip_queue) : option (ip_queue * list ip_out) :=
+Definition queue_run (chk : bool) (q : ip_queue) : option (ip_queue * list ip_out) :=
   let '(q1, o1) := if q_closed q then run_closed q else (q, []) in
-  match run_loop (S (length (q_writers q1))) q1 with
+  match run_loop chk (S (length (q_writers q1))) q1 with
   | None => None
   | Some (q2, o2) => Some (q2, o1 ++ o2)
   end.
@@ -109,11 +111,11 @@ Inductive ip_op :=
 | ICancel (a : aioid) (rv : N)                              (* inproc_queue_cancel (abort / timeout) *)
 | IClose.                                                   (* inproc_pipe_close *)
 
-Definition ip_step (q : ip_queue) (o : ip_op) : option (ip_queue * list ip_out) :=
+Definition ip_step (chk : bool) (q : ip_queue) (o : ip_op) : option (ip_queue * list ip_out) :=
   match o with
   | ISend a m sh f1 f2 =>
-      queue_run (mkQ (q_readers q) (q_writers q ++ [mkWent a (q_next q) m sh f1 f2]) (q_closed q) (S (q_next q)))
-  | IRecv a => queue_run (mkQ (q_readers q ++ [a]) (q_writers q) (q_closed q) (q_next q))
+      queue_run chk (mkQ (q_readers q) (q_writers q ++ [mkWent a (q_next q) m sh f1 f2]) (q_closed q) (S (q_next q)))
+  | IRecv a => queue_run chk (mkQ (q_readers q ++ [a]) (q_writers q) (q_closed q) (q_next q))
   | ICancel a rv =>
       (* if (nni_aio_list_active(aio)) { remove; finish_error } *)
       if existsb (N.eqb a) (q_readers q) || existsb (fun w => N.eqb a (w_aio w)) (q_writers q) then
@@ -124,12 +126,12 @@ Definition ip_step (q : ip_queue) (o : ip_op) : option (ip_queue * list ip_out) 
   | IClose => Some (run_closed (mkQ (q_readers q) (q_writers q) true (q_next q)))
   end.
 
-Fixpoint ip_run (q : ip_queue) (ops : list ip_op) : option (ip_queue * list ip_out) :=
+Fixpoint ip_run (chk : bool) (q : ip_queue) (ops : list ip_op) : option (ip_queue * list ip_out) :=
   match ops with
   | [] => Some (q, [])
-  | o :: r => match ip_step q o with
+  | o :: r => match ip_step chk q o with
               | None => None
-              | Some (q1, o1) => match ip_run q1 r with
+              | Some (q1, o1) => match ip_run chk q1 r with
                                  | None => None
                                  | Some (q2, o2) => Some (q2, o1 ++ o2)
                                  end
